@@ -114,10 +114,32 @@ pub enum DstKind {
     ParsedHdr = 15,
     ParsedTag = 16,
     ParsedHeaderTag = 17,
+    /// `DynSizedStructure<OddHeader>`: a caller-defined 12-byte, 4-aligned
+    /// header (legal for the generic machinery; none of the in-tree headers has
+    /// a size that is not a multiple of 8)
+    OddHeader = 18,
+}
+
+/// A header type the harness brings itself: 12 bytes, alignment 4.
+#[derive(Clone, Debug, PartialEq, Eq)]
+#[repr(C)]
+pub struct OddHeader {
+    typ: u32,
+    size: u32,
+    extra: u32,
+}
+
+impl multiboot2_common::Header for OddHeader {
+    fn payload_len(&self) -> usize {
+        self.size as usize - std::mem::size_of::<Self>()
+    }
+    fn set_size(&mut self, total_size: usize) {
+        self.size = total_size as u32;
+    }
 }
 
 impl DstKind {
-    pub const ALL: [DstKind; 18] = [
+    pub const ALL: [DstKind; 19] = [
         DstKind::GenericTag,
         DstKind::GenericHeaderTag,
         DstKind::DummyDst,
@@ -136,9 +158,20 @@ impl DstKind {
         DstKind::ParsedHdr,
         DstKind::ParsedTag,
         DstKind::ParsedHeaderTag,
+        DstKind::OddHeader,
     ];
-    /// kinds that `new_boxed` can be asked for directly
+    /// kinds that `new_boxed` can be asked for directly: the first 14 and `OddHeader`
     pub const BOXABLE: usize = 14;
+    pub fn boxable(self) -> bool {
+        (self as usize) < Self::BOXABLE || self == DstKind::OddHeader
+    }
+    pub fn header_len(self) -> usize {
+        match self {
+            DstKind::OddHeader => 12,
+            DstKind::ParsedHdr => 16,
+            _ => 8,
+        }
+    }
     pub fn from_u64(v: u64) -> Option<Self> {
         Self::ALL.get(v as usize).copied()
     }
@@ -162,6 +195,7 @@ impl DstKind {
             DstKind::ParsedHdr => "ParsedHdr",
             DstKind::ParsedTag => "ParsedTag",
             DstKind::ParsedHeaderTag => "ParsedHeaderTag",
+            DstKind::OddHeader => "OddHeader",
         }
     }
     /// (minimum content length, divisor of the remainder): the shape each
@@ -247,6 +281,9 @@ fn make_dst(kind: DstKind, typ: u64, aux: u64, garbage: u64, slices: &[&[u8]]) -
             mh::HeaderTagHeader::new(hdr_type(typ), hdr_flag(aux), garbage as u32),
             slices,
         ),
+        DstKind::OddHeader => {
+            mk::<mb::DynSizedStructure<OddHeader>>(OddHeader { typ: typ as u32, size: garbage as u32, extra: aux as u32 ^ 0xA5A5_0000 }, slices)
+        }
         _ => unreachable!("parsed kinds are not made by new_boxed"),
     }
 }
@@ -278,6 +315,17 @@ fn hdr_flag(v: u64) -> mh::HeaderTagFlag {
 
 /// Boxed model: header with patched size ‖ concatenated content.
 fn boxed_model(kind: DstKind, typ: u64, aux: u64, slices: &[Vec<u8>]) -> Vec<u8> {
+    if kind == DstKind::OddHeader {
+        let total: usize = 12 + slices.iter().map(|s| s.len()).sum::<usize>();
+        let mut m = Vec::with_capacity(total);
+        m.extend_from_slice(&(typ as u32).to_le_bytes());
+        m.extend_from_slice(&(total as u32).to_le_bytes());
+        m.extend_from_slice(&(aux as u32 ^ 0xA5A5_0000).to_le_bytes());
+        for s in slices {
+            m.extend_from_slice(s);
+        }
+        return m;
+    }
     let total: usize = 8 + slices.iter().map(|s| s.len()).sum::<usize>();
     let mut m = Vec::with_capacity(total);
     match kind {
@@ -614,7 +662,7 @@ impl Interp {
     }
 
     fn op_new_boxed(&mut self, op: &Op) {
-        let Some(kind) = DstKind::from_u64(op.arg(1)).filter(|k| (*k as usize) < DstKind::BOXABLE) else { return self.skip() };
+        let Some(kind) = DstKind::from_u64(op.arg(1)).filter(|k| k.boxable()) else { return self.skip() };
         let (typ, aux, garbage) = (op.arg(2), op.arg(3), op.arg(4));
         let total_content: usize = op.b.iter().map(|s| s.len()).sum();
         if total_content > 1 << 18 {
@@ -631,7 +679,7 @@ impl Interp {
         // buffer, 3 the same slice passed repeatedly. `actual` is what each
         // slice holds — the model is always their plain concatenation.
         let flat: Vec<u8> = op.b.iter().flatten().copied().collect();
-        let alias = if kind == DstKind::Framebuffer { op.arg(5) % 2 } else { op.arg(5) % 4 };
+        let alias = if kind == DstKind::Framebuffer { op.arg(5) % 2 } else { op.arg(5) % 5 };
         let mut ranges: Vec<(usize, usize)> = Vec::with_capacity(op.b.len());
         let mut cum = 0usize;
         for v in &op.b {
@@ -644,6 +692,12 @@ impl Interp {
             ranges.push((start, len));
             cum += v.len();
         }
+        if alias == 4 && ranges.len() >= 4 {
+            // pieces of one buffer, first and last where they are, the middle
+            // ones rotated: still one buffer from first start to last end
+            let last = ranges.len() - 1;
+            ranges[1..last].rotate_left(1);
+        }
         let slices: Vec<&[u8]> = if alias == 0 {
             op.b.iter().map(|v| v.as_slice()).collect()
         } else {
@@ -655,7 +709,8 @@ impl Interp {
             self.probes.hit(match alias {
                 1 => "new_boxed_slices_adjacent_in_one_buffer",
                 2 => "new_boxed_slices_overlapping",
-                _ => "new_boxed_same_slice_repeated",
+                3 => "new_boxed_same_slice_repeated",
+                _ => "new_boxed_slices_of_one_buffer_out_of_order",
             });
         }
         let precondition_broken = !kind.content_ok(total_content);
@@ -1402,7 +1457,7 @@ fn raw_walk(img: &[u8], start: usize) -> Result<Vec<Vec<u8>>, String> {
 /// `new_boxed` with content its kind's `dst_len` rejects panics *after* the
 /// allocation and leaks the block (DESIGN §3.6 note 4).
 pub fn leaks_by_contract(op: &Op) -> bool {
-    let total: usize = if op.arg(5) % 4 == 3 && op.arg(1) != DstKind::Framebuffer as u64 {
+    let total: usize = if op.arg(5) % 5 == 3 && op.arg(1) != DstKind::Framebuffer as u64 {
         op.b.first().map_or(0, |s| s.len()) * op.b.len() // the same slice repeated
     } else {
         op.b.iter().map(|s| s.len()).sum()
